@@ -1,12 +1,342 @@
 (* C06 — hybrid encryption round-trips, binds context info, follows RFC 9180 / ECIES.
-   Statements only; proofs live in proofs/HpkeProofs.v and proofs/EciesProofs.v. *)
+   Statements only; proofs live in proofs/HpkeProofs.v and proofs/EciesProofs.v.
+   The models are model/Hpke.v, model/Xwing.v (HPKE base mode, single shot, all
+   of Tink's KEM x KDF x AEAD suites and prefix variants) and model/Ecies.v
+   (ECIES-AEAD-HKDF, NIST curves x hashes x point formats x DEMs).  The stdlib
+   primitives are universally quantified functions; what is assumed about them
+   is exactly the two law bundles below. *)
 From Coq Require Import List NArith Bool.
-From Tink Require Import Bytes Xwing Hpke HpkeProofs.
+From Tink Require Import Bytes Xwing Hpke Ecies HpkeProofs EciesProofs.
 Import ListNotations.
 Open Scope N_scope.
 
-(* single-shot: the nonce of the first (only) message is the base nonce *)
+(* ---- laws of the stdlib primitives used by the HPKE theorems ---- *)
+Definition hpke_laws
+    (expand : hash -> bytes -> bytes -> nat -> bytes)
+    (dh : kem -> bytes -> bytes -> option bytes) (dh_pub : kem -> bytes -> option bytes)
+    (mlkem_decap : kem -> bytes -> bytes -> option bytes)
+    (mlkem_encap : kem -> bytes -> bytes -> option (bytes * bytes))
+    (mlkem_pub : kem -> bytes -> option bytes)
+    (seal : aead -> bytes -> bytes -> bytes -> bytes -> bytes)
+    (open : aead -> bytes -> bytes -> bytes -> bytes -> option bytes) : Prop :=
+  (* HKDF-Expand returns as many bytes as asked *)
+  (forall h prk info n, length (expand h prk info n) = n) /\
+  (* Diffie-Hellman commutes on genuine public keys *)
+  (forall k a b A B, is_dhkem k = true ->
+     dh_pub k a = Some A -> dh_pub k b = Some B -> dh k a B = dh k b A) /\
+  (* accepted private keys and their public keys have the lengths of the group *)
+  (forall k sk p, is_dhkem k = true -> dh_pub k sk = Some p -> length p = n_pk k /\ length sk = n_sk k) /\
+  (* ML-KEM: decapsulation inverts encapsulation; sizes *)
+  (forall k seed pk coins ss ct, is_mlkem k = true ->
+     mlkem_pub k seed = Some pk -> mlkem_encap k pk coins = Some (ss, ct) ->
+     mlkem_decap k seed ct = Some ss /\ length ct = n_enc k) /\
+  (forall k seed pk, is_mlkem k = true -> mlkem_pub k seed = Some pk -> length pk = n_pk k /\ length seed = 64%nat) /\
+  (* AEAD: Open inverts Seal and accepts nothing else *)
+  (forall a k n ad p, open a k n ad (seal a k n ad p) = Some p) /\
+  (forall a k n ad c p, open a k n ad c = Some p -> c = seal a k n ad p).
+
+Ltac use_hpke_laws HL :=
+  destruct HL as (L1 & L2 & L3 & L4 & L5 & L6 & L7).
+
+(* ================================================================== *)
+(* HPKE                                                                *)
+(* ================================================================== *)
+
+(* Round trip, every suite, every prefix, every key pair, every ephemeral
+   secret, every plaintext and info: whatever Encrypt produces for the public
+   key of skR, Decrypt with skR and the same info returns the plaintext. *)
+Theorem C06_hpke_round_trip :
+  forall extract expand dh dh_pub mlkem_decap mlkem_encap mlkem_pub shake256 sha3_256 seal open,
+  hpke_laws expand dh dh_pub mlkem_decap mlkem_encap mlkem_pub seal open ->
+  forall k d a prefix skR pkR eph info pt c,
+    public_from_private dh_pub mlkem_pub shake256 k skR = Ok pkR ->
+    hpke_encrypt extract expand dh dh_pub mlkem_encap sha3_256 seal k d a prefix pkR eph info pt = Ok c ->
+    hpke_decrypt extract expand dh dh_pub mlkem_decap shake256 sha3_256 open k d a prefix skR c info = Ok pt.
+Proof. intros until open. intros HL. use_hpke_laws HL. intros. eapply hpke_round_trip; eassumption. Qed.
+Print Assumptions C06_hpke_round_trip.
+
+(* The KEM law behind it, derived (not assumed) for all seven KEMs: DHKEM from
+   DH commutativity with the RFC 9180 ExtractAndExpand over enc || pkR, ML-KEM
+   from its correctness, X-Wing from both and the combiner. *)
+Theorem C06_kem_decap_inverts_encap :
+  forall extract expand dh dh_pub mlkem_decap mlkem_encap mlkem_pub shake256 sha3_256 seal open,
+  hpke_laws expand dh dh_pub mlkem_decap mlkem_encap mlkem_pub seal open ->
+  forall k skR pkR eph ss enc,
+    public_from_private dh_pub mlkem_pub shake256 k skR = Ok pkR ->
+    encap extract expand dh dh_pub mlkem_encap sha3_256 k pkR eph = Ok (ss, enc) ->
+    decap extract expand dh dh_pub mlkem_decap shake256 sha3_256 k enc skR = Ok ss /\
+    length enc = n_enc k /\ length skR = n_sk k.
+Proof. intros until open. intros HL. use_hpke_laws HL. intros. eapply kem_law; eassumption. Qed.
+Print Assumptions C06_kem_decap_inverts_encap.
+
+(* Exact acceptance: Decrypt returns p exactly for the strings
+   prefix || enc || Seal(key, base_nonce, "", p) with |enc| = Nenc and
+   (key, base_nonce) the key schedule of Decap(enc, sk) and info.  In
+   particular anything shorter than |prefix| + Nenc is rejected. *)
+Theorem C06_hpke_decrypt_accepts_exactly :
+  forall extract expand dh dh_pub mlkem_decap mlkem_encap mlkem_pub shake256 sha3_256 seal open,
+  hpke_laws expand dh dh_pub mlkem_decap mlkem_encap mlkem_pub seal open ->
+  forall k d a prefix skR c info p, length skR <> 0%nat ->
+    (hpke_decrypt extract expand dh dh_pub mlkem_decap shake256 sha3_256 open k d a prefix skR c info = Ok p <->
+     exists enc ss key bn,
+       length enc = n_enc k /\
+       decap extract expand dh dh_pub mlkem_decap shake256 sha3_256 k enc skR = Ok ss /\
+       key_schedule extract expand k d a ss info = Ok (key, bn) /\
+       c = prefix ++ enc ++ seal a key bn [] p).
+Proof. intros until open. intros HL. use_hpke_laws HL. intros. eapply hpke_decrypt_iff; eassumption. Qed.
+Print Assumptions C06_hpke_decrypt_accepts_exactly.
+
+(* No Go slice expression of Decrypt is ever out of range: for every input of
+   every length the outcome is Ok or Err, never Panic. *)
+Theorem C06_hpke_decrypt_never_panics :
+  forall extract expand dh dh_pub mlkem_decap mlkem_encap mlkem_pub shake256 sha3_256 seal open,
+  hpke_laws expand dh dh_pub mlkem_decap mlkem_encap mlkem_pub seal open ->
+  forall k d a prefix skR c info,
+    hpke_decrypt extract expand dh dh_pub mlkem_decap shake256 sha3_256 open k d a prefix skR c info <> Panic.
+Proof. intros until open. intros HL. use_hpke_laws HL. intros. eapply hpke_decrypt_never_panics; eassumption. Qed.
+Print Assumptions C06_hpke_decrypt_never_panics.
+
+(* The recipient can recompute the sender's ciphertext byte for byte from the
+   encapsulated key it carries (this is what the correspondence run evaluates
+   on Tink's ciphertexts). *)
+Theorem C06_hpke_ciphertext_recomputable :
+  forall extract expand dh dh_pub mlkem_decap mlkem_encap mlkem_pub shake256 sha3_256 seal open,
+  hpke_laws expand dh dh_pub mlkem_decap mlkem_encap mlkem_pub seal open ->
+  forall k d a prefix skR pkR eph info pt c,
+    public_from_private dh_pub mlkem_pub shake256 k skR = Ok pkR ->
+    hpke_encrypt extract expand dh dh_pub mlkem_encap sha3_256 seal k d a prefix pkR eph info pt = Ok c ->
+    hpke_recompute extract expand dh dh_pub mlkem_decap shake256 sha3_256 seal k d a prefix skR c info pt = Ok c.
+Proof. intros until open. intros HL. use_hpke_laws HL. intros. eapply hpke_recompute_eq; eassumption. Qed.
+Print Assumptions C06_hpke_ciphertext_recomputable.
+
+(* compute_nonce with sequence number 0 (single shot) is the base nonce *)
 Theorem C06_nonce_of_first_message_is_base_nonce :
   forall bn, compute_nonce bn 0 = Ok bn.
 Proof. exact compute_nonce_seq0. Qed.
 Print Assumptions C06_nonce_of_first_message_is_base_nonce.
+
+(* Suite ids: injective over all 7 x 3 x 3 supported suites (finite domain:
+   the constructors of kem, kdf, aead), KEM ids injective, and the KEM-level
+   and HPKE-level ids are never equal (domain separation of the two HKDF uses). *)
+Theorem C06_suite_ids_injective :
+  (forall k d a k' d' a', hpke_suite_id k d a = hpke_suite_id k' d' a' -> k = k' /\ d = d' /\ a = a') /\
+  (forall k k', kem_suite_id k = kem_suite_id k' -> k = k') /\
+  (forall k k' d a, kem_suite_id k <> hpke_suite_id k' d a).
+Proof.
+  split; [exact hpke_suite_id_inj|]. split; [exact kem_suite_id_inj|exact kem_hpke_suite_id_disjoint].
+Qed.
+Print Assumptions C06_suite_ids_injective.
+
+(* labelInfo: fails exactly from 2^16 on; otherwise the first two bytes are the
+   requested length, big endian, followed by "HPKE-v1" || suite || label || info *)
+Theorem C06_label_info_length_field :
+  forall label info suite len,
+    (65536 <= N.of_nat len -> label_info label info suite len = Err) /\
+    (forall b, label_info label info suite len = Ok b ->
+       N.of_nat len < 65536 /\ be_val (firstn 2 b) = N.of_nat len /\
+       b = be_bytes 2 (N.of_nat len) ++ s_hpke_v1 ++ suite ++ label ++ info).
+Proof. intros. split; [apply label_info_err|apply label_info_ok]. Qed.
+Print Assumptions C06_label_info_length_field.
+
+(* ---- symbolic binding ----
+   "Collision" = two different inputs with the same output, exhibited for
+   HKDF-Extract, HKDF-Expand, AEAD Seal, or two different encapsulated keys
+   with the same decapsulation.  (A hypothesis "no collisions exist" would be
+   unsatisfiable together with the length law of Expand; so the theorems return
+   the collision instead of assuming its absence.) *)
+
+(* Change the encapsulated key and/or the info, leave the payload: Decrypt
+   yields Err, or the tampered computation collides with the honest one. *)
+Theorem C06_hpke_binding_enc_and_info :
+  forall extract expand dh dh_pub mlkem_decap mlkem_encap mlkem_pub shake256 sha3_256 seal open,
+  hpke_laws expand dh dh_pub mlkem_decap mlkem_encap mlkem_pub seal open ->
+  forall k d a prefix skR pkR eph info pt c enc payload enc' info',
+    public_from_private dh_pub mlkem_pub shake256 k skR = Ok pkR ->
+    hpke_encrypt extract expand dh dh_pub mlkem_encap sha3_256 seal k d a prefix pkR eph info pt = Ok c ->
+    c = prefix ++ enc ++ payload -> length enc = n_enc k -> length enc' = n_enc k ->
+    (enc' <> enc \/ info' <> info) ->
+    hpke_decrypt extract expand dh dh_pub mlkem_decap shake256 sha3_256 open k d a prefix skR
+      (prefix ++ enc' ++ payload) info' = Err
+    \/ extract_collision extract \/ expand_collision expand \/ seal_collision seal
+    \/ decap_collision extract expand dh dh_pub mlkem_decap shake256 sha3_256 k skR.
+Proof. intros until open. intros HL. use_hpke_laws HL. intros. eapply hpke_binding_enc_info_err; eassumption. Qed.
+Print Assumptions C06_hpke_binding_enc_and_info.
+
+(* For the Diffie-Hellman KEMs a decapsulation collision is itself an Expand
+   collision (the KEM context enc || pkR goes into the labeled Expand). *)
+Theorem C06_hpke_binding_enc_and_info_dhkem :
+  forall extract expand dh dh_pub mlkem_decap mlkem_encap mlkem_pub shake256 sha3_256 seal open,
+  hpke_laws expand dh dh_pub mlkem_decap mlkem_encap mlkem_pub seal open ->
+  forall k d a prefix skR pkR eph info pt c enc payload enc' info' p',
+    is_dhkem k = true ->
+    public_from_private dh_pub mlkem_pub shake256 k skR = Ok pkR ->
+    hpke_encrypt extract expand dh dh_pub mlkem_encap sha3_256 seal k d a prefix pkR eph info pt = Ok c ->
+    c = prefix ++ enc ++ payload -> length enc = n_enc k -> length enc' = n_enc k ->
+    (enc' <> enc \/ info' <> info) ->
+    hpke_decrypt extract expand dh dh_pub mlkem_decap shake256 sha3_256 open k d a prefix skR
+      (prefix ++ enc' ++ payload) info' = Ok p' ->
+    extract_collision extract \/ expand_collision expand \/ seal_collision seal.
+Proof. intros until open. intros HL. use_hpke_laws HL. intros. eapply hpke_binding_enc_info_dhkem; eassumption. Qed.
+Print Assumptions C06_hpke_binding_enc_and_info_dhkem.
+
+(* Another private key (DHKEM: the recipient public key is in the KEM context).
+   Partial: stated for the four Diffie-Hellman KEMs only; for ML-KEM / X-Wing the
+   corresponding statement needs a key-binding property of ML-KEM itself. *)
+Theorem C06_hpke_binding_other_private_key_partial :
+  forall extract expand dh dh_pub mlkem_decap mlkem_encap mlkem_pub shake256 sha3_256 seal open,
+  hpke_laws expand dh dh_pub mlkem_decap mlkem_encap mlkem_pub seal open ->
+  forall k d a prefix skR pkR skR' pkR' eph info pt c p',
+    is_dhkem k = true ->
+    public_from_private dh_pub mlkem_pub shake256 k skR = Ok pkR ->
+    public_from_private dh_pub mlkem_pub shake256 k skR' = Ok pkR' -> pkR' <> pkR ->
+    hpke_encrypt extract expand dh dh_pub mlkem_encap sha3_256 seal k d a prefix pkR eph info pt = Ok c ->
+    hpke_decrypt extract expand dh dh_pub mlkem_decap shake256 sha3_256 open k d a prefix skR' c info = Ok p' ->
+    extract_collision extract \/ expand_collision expand \/ seal_collision seal.
+Proof. intros until open. intros HL. use_hpke_laws HL. intros.
+  eapply hpke_binding_other_key_dhkem with (skR := skR) (skR' := skR') (pkR := pkR) (pkR' := pkR'); eassumption.
+Qed.
+Print Assumptions C06_hpke_binding_other_private_key_partial.
+
+(* Another prefix (other key id, other variant byte) of the same length: Err, unconditionally. *)
+Theorem C06_hpke_binding_prefix :
+  forall extract expand dh dh_pub mlkem_decap shake256 sha3_256 open k d a prefix skR prefix' rest info,
+    length prefix' = length prefix -> prefix' <> prefix ->
+    hpke_decrypt extract expand dh dh_pub mlkem_decap shake256 sha3_256 open k d a prefix skR (prefix' ++ rest) info = Err.
+Proof. intros. apply hpke_binding_prefix; assumption. Qed.
+Print Assumptions C06_hpke_binding_prefix.
+
+(* A changed payload is accepted only if it is itself the Seal, under the very
+   key and nonce of the honest ciphertext, of the different plaintext returned
+   (producing such a string without the key is AEAD forgery: outside the symbolic model). *)
+Theorem C06_hpke_binding_payload :
+  forall extract expand dh dh_pub mlkem_decap mlkem_encap mlkem_pub shake256 sha3_256 seal open,
+  hpke_laws expand dh dh_pub mlkem_decap mlkem_encap mlkem_pub seal open ->
+  forall k d a prefix skR pkR eph info pt c enc payload payload' p',
+    public_from_private dh_pub mlkem_pub shake256 k skR = Ok pkR ->
+    hpke_encrypt extract expand dh dh_pub mlkem_encap sha3_256 seal k d a prefix pkR eph info pt = Ok c ->
+    c = prefix ++ enc ++ payload -> length enc = n_enc k -> payload' <> payload ->
+    hpke_decrypt extract expand dh dh_pub mlkem_decap shake256 sha3_256 open k d a prefix skR
+      (prefix ++ enc ++ payload') info = Ok p' ->
+    exists key bn, payload = seal a key bn [] pt /\ payload' = seal a key bn [] p' /\ p' <> pt.
+Proof. intros until open. intros HL. use_hpke_laws HL. intros. eapply hpke_binding_payload; eassumption. Qed.
+Print Assumptions C06_hpke_binding_payload.
+
+(* Non-vacuity: the law bundle is satisfied by a toy instance (a "cipher" that
+   writes key and nonce before the plaintext, a checksum "HKDF"), with which an
+   X25519 / HKDF-SHA256 / AES-128-GCM TINK-prefixed encryption succeeds, decrypts,
+   and is rejected under another info. *)
+Example C06_hpke_nonvacuous :
+  hpke_laws toy_expand toy_dh toy_dh_pub toy_mlkem_decap toy_mlkem_encap toy_mlkem_pub toy_seal toy_open /\
+  let prefix := [1; 0; 0; 0; 42] in
+  let skR := zeros 32 in
+  exists pkR c,
+    public_from_private toy_dh_pub toy_mlkem_pub toy_shake256 X25519 skR = Ok pkR /\
+    hpke_encrypt toy_extract toy_expand toy_dh toy_dh_pub toy_mlkem_encap toy_sha3 toy_seal
+      X25519 HKDF_SHA256 AES128GCM prefix pkR (zeros 32) [1; 2; 3] [10; 20] = Ok c /\
+    hpke_decrypt toy_extract toy_expand toy_dh toy_dh_pub toy_mlkem_decap toy_shake256 toy_sha3 toy_open
+      X25519 HKDF_SHA256 AES128GCM prefix skR c [1; 2; 3] = Ok [10; 20] /\
+    hpke_decrypt toy_extract toy_expand toy_dh toy_dh_pub toy_mlkem_decap toy_shake256 toy_sha3 toy_open
+      X25519 HKDF_SHA256 AES128GCM prefix skR c [1; 2; 4] = Err.
+Proof.
+  split.
+  - split; [exact toy_expand_len|]. split; [exact toy_dh_comm|]. split; [exact toy_dh_pub_len|].
+    split; [exact toy_mlkem_correct|]. split; [exact toy_mlkem_pub_len|].
+    split; [exact toy_open_seal|exact toy_open_sound].
+  - eexists. eexists. vm_compute. repeat split.
+Qed.
+
+(* ================================================================== *)
+(* ECIES-AEAD-HKDF                                                     *)
+(* ================================================================== *)
+Definition ecies_laws
+    (ec_dh : curve -> bytes -> bytes -> option bytes) (ec_pub : curve -> bytes -> option bytes)
+    (ec_oncurve : curve -> bytes -> bytes -> bool) (ec_decompress : curve -> bytes -> option bytes)
+    (gcm_seal : bytes -> bytes -> bytes -> bytes -> bytes)
+    (gcm_open : bytes -> bytes -> bytes -> bytes -> option bytes)
+    (aes_ctr : bytes -> bytes -> bytes -> bytes) (hmac_sha256 : bytes -> bytes -> bytes)
+    (siv_seal : bytes -> bytes -> bytes -> bytes) (siv_open : bytes -> bytes -> bytes -> option bytes) : Prop :=
+  (* ECDH commutes on genuine public keys *)
+  (forall c a b A B, ec_pub c a = Some A -> ec_pub c b = Some B -> ec_dh c a B = ec_dh c b A) /\
+  (* a public key is 04 || X || Y, on the curve *)
+  (forall c sk P, ec_pub c sk = Some P ->
+     length P = (1 + 2 * field_size c)%nat /\ hd 0 P = 4 /\ ec_oncurve c (coord_x c P) (coord_y c P) = true) /\
+  (* decompression recovers a point on the curve from X and the parity of Y *)
+  (forall c x y, ec_oncurve c x y = true -> length x = field_size c -> length y = field_size c ->
+     ec_decompress c ((if N.odd (last y 0) then 3 else 2) :: x) = Some (4 :: x ++ y)) /\
+  (* the DEM primitives *)
+  (forall k iv ad p, gcm_open k iv ad (gcm_seal k iv ad p) = Some p) /\
+  (forall k iv ad p, length (gcm_seal k iv ad p) = (length p + 16)%nat) /\
+  (forall k iv x, aes_ctr k iv (aes_ctr k iv x) = x) /\
+  (forall k m, length (hmac_sha256 k m) = 32%nat) /\
+  (forall k ad p, siv_open k ad (siv_seal k ad p) = Some p).
+
+Ltac use_ecies_laws HL :=
+  destruct HL as (E1 & E2 & E3 & E4 & E5 & E6 & E7 & E8).
+
+(* Round trip for every curve, hash, point format, DEM (AES-GCM, AES-SIV,
+   AES-CTR-HMAC), salt, prefix, key pair, ephemeral scalar, DEM IV of the DEM's
+   IV length, plaintext and info. *)
+Theorem C06_ecies_round_trip :
+  forall ec_dh ec_pub ec_oncurve ec_decompress hkdf gcm_seal gcm_open aes_ctr hmac_sha256 siv_seal siv_open,
+  ecies_laws ec_dh ec_pub ec_oncurve ec_decompress gcm_seal gcm_open aes_ctr hmac_sha256 siv_seal siv_open ->
+  forall c h f d salt prefix skR pkR eph iv info pt ct,
+    ec_pub c skR = Some pkR -> length iv = dem_iv_size d ->
+    ecies_encrypt ec_dh ec_pub ec_oncurve hkdf gcm_seal aes_ctr hmac_sha256 siv_seal
+      c h f d salt prefix pkR eph iv info pt = Ok ct ->
+    ecies_decrypt ec_dh ec_oncurve ec_decompress hkdf gcm_open aes_ctr hmac_sha256 siv_open
+      c h f d salt prefix skR ct info = Ok pt.
+Proof. intros until siv_open. intros HL. use_ecies_laws HL. intros. eapply ecies_round_trip; eassumption. Qed.
+Print Assumptions C06_ecies_round_trip.
+
+(* Encoding then decoding a public point gives the point back, in all three formats. *)
+Theorem C06_ecies_point_formats_round_trip :
+  forall ec_dh ec_pub ec_oncurve ec_decompress gcm_seal gcm_open aes_ctr hmac_sha256 siv_seal siv_open,
+  ecies_laws ec_dh ec_pub ec_oncurve ec_decompress gcm_seal gcm_open aes_ctr hmac_sha256 siv_seal siv_open ->
+  forall c f sk P e, ec_pub c sk = Some P ->
+    point_encode ec_oncurve c f P = Ok e ->
+    point_decode ec_oncurve ec_decompress c f e = Ok P /\ encoding_size c f = Ok (length e).
+Proof.
+  intros until siv_open. intros HL. use_ecies_laws HL. intros c f sk P e Hp He.
+  destruct (E2 _ _ _ Hp) as (L & H4 & _).
+  split; [eapply point_decode_encode; eassumption|eapply point_encode_length; eassumption].
+Qed.
+Print Assumptions C06_ecies_point_formats_round_trip.
+
+(* Never Panic, for every ciphertext of every length (no law needed). *)
+Theorem C06_ecies_decrypt_never_panics :
+  forall ec_dh ec_oncurve ec_decompress hkdf gcm_open aes_ctr hmac_sha256 siv_open
+         c h f d salt prefix skR ct info,
+    ecies_decrypt ec_dh ec_oncurve ec_decompress hkdf gcm_open aes_ctr hmac_sha256 siv_open
+      c h f d salt prefix skR ct info <> Panic.
+Proof. intros. apply ecies_decrypt_never_panics. Qed.
+Print Assumptions C06_ecies_decrypt_never_panics.
+
+Theorem C06_ecies_binding_prefix :
+  forall ec_dh ec_oncurve ec_decompress hkdf gcm_open aes_ctr hmac_sha256 siv_open
+         c h f d salt prefix skR prefix' rest info,
+    length prefix' = length prefix -> prefix' <> prefix ->
+    ecies_decrypt ec_dh ec_oncurve ec_decompress hkdf gcm_open aes_ctr hmac_sha256 siv_open
+      c h f d salt prefix skR (prefix' ++ rest) info = Err.
+Proof. intros. apply ecies_binding_prefix; assumption. Qed.
+Print Assumptions C06_ecies_binding_prefix.
+
+Example C06_ecies_nonvacuous :
+  ecies_laws toy_ec_dh toy_ec_pub toy_ec_oncurve toy_ec_decompress toy_gcm_seal toy_gcm_open
+    toy_aes_ctr toy_hmac toy_siv_seal toy_siv_open /\
+  let skR := zeros 32 in
+  let iv := zeros 12 in
+  exists pkR ct,
+    toy_ec_pub NIST_P256 skR = Some pkR /\
+    ecies_encrypt toy_ec_dh toy_ec_pub toy_ec_oncurve toy_hkdf toy_gcm_seal toy_aes_ctr toy_hmac toy_siv_seal
+      NIST_P256 SHA256 COMPRESSED AES128_GCM [5] [0; 0; 0; 0; 7] pkR (zeros 32) iv [1; 2; 3] [10; 20] = Ok ct /\
+    ecies_decrypt toy_ec_dh toy_ec_oncurve toy_ec_decompress toy_hkdf toy_gcm_open toy_aes_ctr toy_hmac toy_siv_open
+      NIST_P256 SHA256 COMPRESSED AES128_GCM [5] [0; 0; 0; 0; 7] skR ct [1; 2; 3] = Ok [10; 20] /\
+    ecies_decrypt toy_ec_dh toy_ec_oncurve toy_ec_decompress toy_hkdf toy_gcm_open toy_aes_ctr toy_hmac toy_siv_open
+      NIST_P256 SHA256 COMPRESSED AES128_GCM [5] [0; 0; 0; 0; 7] skR ct [1; 2; 4] = Err.
+Proof.
+  split.
+  - split; [exact toy_ec_dh_comm|]. split; [exact toy_ec_pub_shape|]. split; [exact toy_ec_decompress_compress|].
+    split; [exact toy_gcm_open_seal|]. split; [exact toy_gcm_seal_len|]. split; [exact toy_aes_ctr_involutive|].
+    split; [exact toy_hmac_len|exact toy_siv_open_seal].
+  - eexists. eexists. vm_compute. repeat split.
+Qed.
